@@ -37,7 +37,9 @@ SSE_STUBS = [
     ("core::arch::x86_64::_mm_cmpeq_ps", "mm_cmpeq_ps"), ("core::arch::x86_64::_mm_cmpneq_ps", "mm_cmpneq_ps"),
     ("core::arch::x86_64::_mm_cmplt_ps", "mm_cmplt_ps"), ("core::arch::x86_64::_mm_cmple_ps", "mm_cmple_ps"),
     ("core::arch::x86_64::_mm_cmpgt_ps", "mm_cmpgt_ps"), ("core::arch::x86_64::_mm_cmpge_ps", "mm_cmpge_ps"),
-    ("core::arch::x86_64::_mm_cmpunord_ps", "mm_cmpunord_ps"),
+    ("core::arch::x86_64::_mm_cmpunord_ps", "mm_cmpunord_ps"), ("core::arch::x86_64::_mm_cmpord_ps", "mm_cmpord_ps"),
+    ("core::arch::x86_64::_mm_cmpnlt_ps", "mm_cmpnlt_ps"), ("core::arch::x86_64::_mm_cmpnle_ps", "mm_cmpnle_ps"),
+    ("core::arch::x86_64::_mm_cmpngt_ps", "mm_cmpngt_ps"), ("core::arch::x86_64::_mm_cmpnge_ps", "mm_cmpnge_ps"),
     ("core::arch::x86_64::_mm_cvttps_epi32", "mm_cvttps_epi32"), ("core::arch::x86_64::_mm_cvtepi32_ps", "mm_cvtepi32_ps"),
 ]
 # math shims of glam that become uninterpreted functions ("uf" option of a harness)
@@ -71,6 +73,8 @@ class Harness:
         self.pre = pre  # extra items emitted before the body fn (helper fns)
         self.result = None
         self.cross = None
+        self.ignore_panics = False
+        self.expect_fail = False
 
 
 def rust_source(harnesses, cfg, prelude=""):
@@ -99,7 +103,8 @@ def rust_source(harnesses, cfg, prelude=""):
             out.append(f"#[kani::unwind({h.unwind})]")
         for a, b in stubs:
             out.append(f"#[kani::stub({a}, {b})]")
-        out.append(f"pub fn h_{h.name}() {{ let inp: [u64; NIN] = kani::any(); b_{h.name}(&inp); vcover!(\"REACH\"); }}")
+        end = 'vcover!("REACH");' if h.expect == "pass" else 'va!("must-panic", false);'
+        out.append(f"pub fn h_{h.name}() {{ let inp: [u64; NIN] = kani::any(); b_{h.name}(&inp); {end} }}")
     # native dispatch table for replay
     out.append("#[cfg(not(kani))] pub static TABLE: &[(&str, fn(&[u64; NIN]))] = &[")
     for h in harnesses:
@@ -433,6 +438,9 @@ def decide(h, goto, workdir, tier_cap):
         return r
     covers = [p["name"] for p in plist if p.get("class") == "cover"]
     noncov = [p for p in plist if p.get("class") != "cover"]
+    if h.ignore_panics or h.expect == "panic":
+        # Rust panics are allowed (ignore_panics) or expected (must-panic): only harness obligations and memory-safety checks are decided
+        noncov = [p for p in noncov if p.get("description", "").startswith("VA:") or p.get("class") != "assertion"]
     # reachability witness (SAT, cover properties only: arithmetic is sliced away)
     cov_args = []
     for c in covers:
@@ -499,52 +507,51 @@ def judge(r, props):
     pre = [p for p in vc if "PRE" in p.get("description", "")]
     reach_ok = any(p["status"] in ("FAILURE", "SATISFIED") for p in reach) if reach else None
     pre_ok = any(p["status"] in ("FAILURE", "SATISFIED") for p in pre) if pre else None
-    r.reach = reach_ok
+    r.reach = reach_ok if h.expect == "pass" else pre_ok
     bad_va = [p for p in va if p["status"] == "FAILURE"]
     bad_other = [p for p in other if p["status"] == "FAILURE"]
     unknown = [p for p in va + other if p["status"] not in ("SUCCESS", "FAILURE")]
     if unknown:
         r.status, r.detail = "inconclusive", "undetermined: " + unknown[0]["property"]
         return r
-    unwind_fail = [p for p in bad_other if "unwinding" in p["property"]]
+    unwind_fail = [p for p in bad_other if "unwinding" in p["property"] or "unwinding" in p.get("description", "")]
     if unwind_fail:
         r.status, r.detail = "broken", "unwinding assertion failed (bound too small): " + unwind_fail[0]["property"]
         return r
+
+    def is_panic(p):   # a Rust panic (overflow, index, unwrap, explicit panic!, glam assert), as opposed to a memory-safety check
+        return ".assertion." in p["property"]
+
+    def take_inputs(ps):
+        for p in ps:
+            if "trace" in p:
+                i = extract_inputs_from_trace(p["trace"])
+                if i:
+                    return i
+        return r.inputs
     if h.expect == "pass":
+        if h.ignore_panics:
+            bad_other = [p for p in bad_other if not is_panic(p)]
         if bad_va or bad_other:
             r.status = "fail"
             r.failed = [p["description"] + " @" + p.get("sourceLocation", {}).get("function", "?") for p in bad_va + bad_other]
-            for p in bad_va + bad_other:
-                if "trace" in p:
-                    r.inputs = extract_inputs_from_trace(p["trace"])
-                    if r.inputs:
-                        break
+            r.inputs = take_inputs(bad_va + bad_other)
             return r
         if not reach_ok:
             r.status, r.detail = "broken", "vacuous: end of harness unreachable"
             return r
         r.status = "pass"
         return r
-    # expect == 'panic': precondition point reachable, end unreachable, only Rust panics fail
-    if pre_ok is False or pre_ok is None:
+    # expect == 'panic': precondition point reachable, end marker (VA:must-panic) unreachable, no memory-safety failure on the way
+    if not pre_ok:
         r.status, r.detail = "broken", "vacuous: must-panic harness precondition unreachable"
         return r
-    if bad_va:
+    nonpanic = [p for p in bad_other if not is_panic(p)]
+    if bad_va or nonpanic:
         r.status = "fail"
-        r.failed = [p["description"] for p in bad_va]
-        return r
-    if reach_ok:
-        r.status = "fail"
-        r.failed = ["VA:must-panic (a path reaches the end without panicking)"]
-        # the trace of the REACH cover is the witness
-        for p in reach:
-            if "trace" in p:
-                r.inputs = extract_inputs_from_trace(p["trace"])
-        return r
-    nonpanic = [p for p in bad_other if p["property"].split(".")[-2] not in ("assertion",)]
-    if nonpanic:
-        r.status = "fail"
-        r.failed = [p["description"] + " (memory-safety check failed before the panic)" for p in nonpanic]
+        r.failed = [p["description"] + (" (a path reaches the end without panicking)" if "must-panic" in p["description"] else "") for p in bad_va] + \
+                   [p["description"] + " (memory-safety check failed before the panic)" for p in nonpanic]
+        r.inputs = take_inputs(bad_va + nonpanic)
         return r
     r.status = "pass"
     return r
